@@ -194,7 +194,7 @@ def _primitives(prog: Program, res: Result):
         gh = [e for e in f.events if e.kind == "GHE"]
         ok = order == ["HSET", "GF", "GHE"] and hs[0].data[1] == Rat.atom("h")
         hv = gf[0].data.get("h_values") if gf else None
-        okh = ok and isinstance(hv, Seq) and len(hv.items) == 1 and isinstance(hv.items[0], Rat) and hv.items[0].key() == hs[0].data[0]
+        okh = ok and isinstance(hv, Seq) and len(hv.items) == 1 and isinstance(hv.items[0], Rat) and (hv.items[0].key() == hs[0].data[0] or (isinstance(hs[0].data[1], Rat) and hv.items[0].equals(hs[0].data[1])))  # the borehole's height attribute, or the value just written to it
         okb = okh and vkey(gh[0].data.get("borehole")) + ".H" == hs[0].data[0]
         res.ob("R01.7", f"{cls}.initialize_ghe: writes the requested height to the borehole, computes the g-function for [that height] and builds the GHE on that borehole", bool(okb), prog.loc(fi, fi.node))
         if not okb:
